@@ -1,4 +1,6 @@
 import Bec2Verif.Lemmas.Adapter
+import Bec2Verif.Lemmas.TextEnvelope
+import Bec2Verif.Model.Entry
 /-!
 # C01 — BF3 write-then-read returns the same file (binary container)
 
@@ -6,7 +8,8 @@ For *every* registered crypto `C` whose MAC has `CMAC_SIZE` bytes (in particular
 bundled AES adapter, `aes_macLen`), every session key, every list of plain components:
 what `to_binary`/`write_file` wrote is read back unchanged by `from_binary`/`read_file`,
 with MAC checking on or off.  Nothing cryptographic is needed: the reader recomputes the
-same MAC function.  The text envelope is treated in `Props/C01Text.lean`.
+same MAC function.  The text envelope (comment lines, blank line, 80-column hex lines; stream and path I/O) is
+the second half of this file: `read_file ∘ write_file = id` for the whole file.
 -/
 namespace Bec2Verif.Props.C01
 open Bec2Verif Bec2Verif.Bf3
@@ -79,6 +82,53 @@ theorem readBinary_writeBinary_aes (chk : Bool) (key : Bytes) (comps : List Comp
     (hwf : ∀ c ∈ comps, PlainWF c) (h : writeBinary aesCrypto comps key = .ok b) :
     readBinary aesCrypto chk key b = .ok comps :=
   readBinary_writeBinary aesCrypto aes_macLen chk key comps b hwf h
+
+/-! ### the text envelope -/
+
+open Bec2Verif.Text in
+/-- `parse_bf3_file ∘ write_bf3_format = id` through a stream: every binary (all lengths, multiples of 40 included - the
+writer then emits one empty line, which the reader ignores), comments with keys free of `:` and newline, values free
+of newline and of leading / trailing whitespace (the reader strips them), distinct keys -/
+theorem text_roundtrip (cs : List (Str × Str)) (raw : Bytes) (hwf : CommentsWF cs) :
+    parseText (writeText cs raw) = .ok (cs, raw) := parseText_writeText cs raw hwf
+
+open Bec2Verif.Text in
+/-- through a path: the writer's `newline="\r\n"` translation followed by the reader's universal newlines is the
+identity on text without carriage returns -/
+theorem path_newlines (s : Str) (h : '\r' ∉ s) : universalNewlines (toCRLF s) = s := universal_toCRLF s h
+
+open Bec2Verif.Text in
+/-- **`Bf3File.read_file ∘ write_file = id`**: comments and components come back unchanged, for every crypto plug-in
+with a 16-byte MAC, every session key, MAC check on or off -/
+theorem readFile_writeFile (C : Crypto) (hm : MacLen C) (chk : Bool) (key : Bytes) (cs : List (Str × Str))
+    (comps : List Comp) (b : Bytes) (hcs : CommentsWF cs) (hwf : ∀ c ∈ comps, PlainWF c)
+    (h : writeBinary C comps key = .ok b) :
+    Entry.readBf3 C chk key (writeText cs b) = .ok (cs, comps) := by
+  unfold Entry.readBf3
+  rw [parseText_writeText cs b hcs]
+  simp only [bind, Except.bind]
+  rw [readBinary_writeBinary C hm chk key comps b hwf h]
+
+open Bec2Verif.Text in
+/-- the same through a path (CRLF on disk) when the text has no carriage return of its own -/
+theorem readFile_writeFile_path (C : Crypto) (hm : MacLen C) (chk : Bool) (key : Bytes) (cs : List (Str × Str))
+    (comps : List Comp) (b : Bytes) (hcs : CommentsWF cs) (hwf : ∀ c ∈ comps, PlainWF c)
+    (hcr : '\r' ∉ writeText cs b) (h : writeBinary C comps key = .ok b) :
+    Entry.readBf3 C chk key (universalNewlines (toCRLF (writeText cs b))) = .ok (cs, comps) := by
+  rw [universal_toCRLF _ hcr]
+  exact readFile_writeFile C hm chk key cs comps b hcs hwf h
+
+/-- non-vacuity of `CommentsWF` -/
+example : Text.CommentsWF [("Creator".toList, "tool 1.0".toList), ("X".toList, [])] := by
+  refine ⟨?_, ?_, by decide⟩
+  · intro kv hkv
+    simp only [List.mem_cons, List.not_mem_nil, or_false] at hkv
+    rcases hkv with rfl | rfl <;> decide
+  · intro kv hkv
+    simp only [List.mem_cons, List.not_mem_nil, or_false] at hkv
+    rcases hkv with rfl | rfl
+    · refine ⟨by decide, ?_, ?_⟩ <;> intro c hc <;> simp at hc <;> subst hc <;> decide
+    · refine ⟨by decide, ?_, ?_⟩ <;> intro c hc <;> simp at hc
 
 /-- pinned documented constants (regenerated from the source on every run) -/
 theorem consts_pinned :
